@@ -176,6 +176,13 @@ CTOR = {
     "Advection": ("stepper", "phys", 1, {}, {"velocity": _t(0.1, 0.5, 1.0)}),
     "Diffusion": ("stepper", "phys", 1, {}, {"diffusivity": _t(0.01, 0.05, 0.2)}),
     "AdvectionDiffusion": ("stepper", "phys", 2, {}, {"velocity": _t(0.1, 0.5, 1.0), "diffusivity": _t(0.01, 0.05, 0.2)}),
+    "Advection@2d": ("stepper", "phys", 2, {}, {"velocity": _t(0.1, 0.0, 1.0)}),
+    "Diffusion@2d": ("stepper", "phys", 2, {}, {"diffusivity": _t(0.01, 0.05, 0.2)}),
+    "Diffusion@3d": ("stepper", "phys", 3, {}, {"diffusivity": _t(0.01, 0.05, 0.2)}),
+    "Dispersion@2d": ("stepper", "phys", 2, {}, {"dispersivity": _t(0.01, 0.05, 0.2)}),
+    "HyperDiffusion@2d": ("stepper", "phys", 2, {}, {"hyper_diffusivity": _t(1e-4, 1e-3, 5e-3)}),
+    "Burgers@2d": ("stepper", "phys", 2, {}, {"diffusivity": _t(0.01, 0.05, 0.2), "convection_scale": _t(0.5, 0.0, -1.0)}),
+    "KortewegDeVries@2d": ("stepper", "phys", 2, {}, {"dispersivity": _t(0.01, 0.1, 1.0), "hyper_diffusivity": _t(0.0, 0.001, 0.01)}),
     "Dispersion": ("stepper", "phys", 1, {}, {"dispersivity": _t(0.01, 0.05, 0.2)}),
     "HyperDiffusion": ("stepper", "phys", 1, {}, {"hyper_diffusivity": _t(1e-4, 1e-3, 5e-3)}),
     "Wave": ("stepper", "phys", 1, {}, {"speed_of_sound": _t(0.5, 1.0, 2.0)}),
@@ -194,13 +201,16 @@ CTOR = {
     "CahnHilliard": ("stepper.reaction", "phys", 1, {}, {"diffusivity": _t(0.01, 0.02, 0.05), "gamma": _t(1e-3, 2e-3, 5e-3), "first_order_coefficient": _t(-0.5, -1.0, -2.0),
                                                           "third_order_coefficient": _t(0.5, 1.0, 2.0)}),
     "GrayScott": ("stepper.reaction", "phys", 1, {}, {"diffusivity_1": _t(1e-3, 2e-3, 5e-3), "diffusivity_2": _t(5e-4, 1e-3, 2e-3), "feed_rate": _t(0.02, 0.04, 0.06), "kill_rate": _t(0.05, 0.06, 0.07)}),
-    "SwiftHohenberg": ("stepper.reaction", "phys", 1, {}, {"reactivity": _t(0.3, 0.7, 1.0), "critical_number": _t(0.5, 1.0, 1.5)}),
+    "SwiftHohenberg": ("stepper.reaction", "phys", 1, {}, {"reactivity": _t(0.3, 0.7, 1.0), "critical_number": _t(0.5, 1.0, 1.5),
+                                                            "polynomial_coefficients[1]": _t(-0.2, 0.0, 0.3), "polynomial_coefficients[3]": _t(-0.5, -1.0, -2.0)}),
     "GeneralLinearStepper": ("stepper.generic", "phys", 1, {}, {"linear_coefficients[1]": _t(-0.5, 0.1, 1.0), "linear_coefficients[2]": _t(0.01, 0.05, 0.1)}),
     "GeneralConvectionStepper": ("stepper.generic", "phys", 1, {}, {"linear_coefficients[2]": _t(0.01, 0.05, 0.1), "convection_scale": _t(0.5, 1.0, -1.0)}),
     "GeneralGradientNormStepper": ("stepper.generic", "phys", 1, {}, {"linear_coefficients[2]": _t(-0.01, -0.05, 0.02), "gradient_norm_scale": _t(0.5, 1.0, 2.0)}),
-    "GeneralPolynomialStepper": ("stepper.generic", "phys", 1, {}, {"linear_coefficients[0]": _t(0.1, 0.5, 1.0), "polynomial_coefficients[2]": _t(-0.5, -1.0, -2.0)}),
-    "GeneralNonlinearStepper": ("stepper.generic", "phys", 1, {}, {"linear_coefficients[2]": _t(0.01, 0.05, 0.1), "nonlinear_coefficients[0]": _t(0.0, 0.2, -0.3), "nonlinear_coefficients[1]": _t(-1.0, -0.5, 0.5),
-                                                                    "nonlinear_coefficients[2]": _t(0.0, 0.3, -0.2)}),
+    "GeneralPolynomialStepper": ("stepper.generic", "phys", 1, {}, {"linear_coefficients[0]": _t(0.1, 0.5, 1.0), "polynomial_coefficients[2]": _t(-0.5, -1.0, -2.0),
+                                                                     "polynomial_coefficients[1]": _t(-0.3, 0.0, 0.4), "polynomial_coefficients[0]": _t(-0.2, 0.0, 0.1),
+                                                                     "linear_coefficients[1]": _t(-0.4, 0.0, 0.3)}),
+    "GeneralNonlinearStepper": ("stepper.generic", "phys", 1, {}, {"linear_coefficients[2]": _t(0.01, 0.05, 0.1), "nonlinear_coefficients[0]": _t(0.2, 0.0, -0.3), "nonlinear_coefficients[1]": _t(-1.0, 0.0, 0.5),
+                                                                    "nonlinear_coefficients[2]": _t(0.3, 0.0, -0.2)}),
     "GeneralVorticityConvectionStepper": ("stepper.generic", "phys", 2, {"injection_mode": 1}, {"vorticity_convection_scale": _t(0.5, 1.0, 2.0), "linear_coefficients[2]": _t(0.001, 0.01, 0.05),
                                                                                                 "injection_scale": _t(0.0, 0.5, 1.0)}),
     "NormalizedLinearStepper": ("stepper.generic", "norm", 1, {}, {"normalized_linear_coefficients[1]": _t(-0.5, -0.1, 0.2)}),
@@ -231,7 +241,7 @@ def unit_ctor(u, rec):
     mod = ex
     for part in modpath.split("."):
         mod = getattr(mod, part)
-    cls = getattr(mod, name)
+    cls = getattr(mod, name.split("@")[0])
     sig = inspect.signature(cls.__init__)
     frac_half = "dealiasing_fraction" in sig.parameters and sig.parameters["dealiasing_fraction"].default == 0.5
     N = {1: 16, 2: 12, 3: 8}[D]
